@@ -7687,6 +7687,16 @@ fn eval_struct_value(
         ));
     }
 
+    // Store fields in the order of the type definition, so struct
+    // values don't depend on the order that fields were written in
+    // the literal.
+    fields.sort_by_key(|(name, _)| {
+        struct_info
+            .fields
+            .iter()
+            .position(|field_info| &field_info.sym.name == name)
+    });
+
     let mut type_args = vec![];
     for type_param in &struct_info.type_params {
         let param_value = type_arg_bindings
